@@ -835,19 +835,23 @@ def rule_iteration_mutation(ctx, modnames, label):
     ctx.ok(rule, f"{label}: {n} functions, no loop modifies the sequence it iterates over")
 
 
+NO_HYGIENE = {"C20": "C20 is about purity (no mutation of arguments); functional slips in the same functions are the business of the property they compute for"}
+
+
 def rule_hygiene(ctx):
     """Generic rules with an expected count of zero, applied to exactly the functions the property's own rules analysed
     (ctx.functions_analysed): a defect elsewhere in the same file is another property's business."""
+    if ctx.prop in NO_HYGIENE:
+        return
     anchored = anchor_functions(ctx)
     if len(anchored) < 3:
         raise AnalysisError("HYGIENE", ctx.prop, f"only {len(anchored)} of the functions named in the property's anchors were found")
     ctx.touch(*anchored)
     ctx.extra["anchor_functions_found"] = len(anchored)
-    # scope: the anchored functions plus the analysed functions that live in the files the property is anchored in
-    # (a defect in a function that is merely reachable, in another file, is another property's business)
-    files = {f.module.relpath for f in anchored}
-    fs = [ctx.prog.functions[q] for q in sorted(ctx.functions_analysed) if q in ctx.prog.functions and ctx.prog.functions[q].module.relpath in files]
-    label = f"{len(fs)} functions of {ctx.prop} in {len(files)} anchored file(s)"
+    # scope: exactly the functions the property is anchored in. A defect in a function that is merely reachable from them
+    # is the business of the property that anchors *that* function; this keeps a check quiet when another property breaks.
+    fs = sorted(set(anchored), key=lambda f: f.qname)
+    label = f"{len(fs)} anchored functions of {ctx.prop}"
     rule_F11(ctx, fs, label)
     rule_iteration_mutation(ctx, fs, label)
     rule_zip_parallel(ctx, fs, label, floor=0)
